@@ -286,6 +286,12 @@ TrLeapDump == IsOp("leap_dump") /\ KeepD /\ UNCHANGED <<e, eout>> /\ Has(E.res, 
           /\ (~isB => Len(v) = Len(LeapR))
           /\ \A i \in 1..Len(v) : ~v[i].iers =>
                  (isB /\ v[i].t.k = "fin" /\ B!Lt(B!Mul(B!Mk(FALSE, v[i].t.m), Ur[4]), B!Mul(LeapR[1][1], B!Pow2(IF v[i].t.e < 0 THEN -v[i].t.e ELSE 0))))
+(* the providers walked through skip / nth followed by the rest / step_by (all built on Iterator::nth): the entries  *)
+(* of the table (E.all: the indexed listing, itself judged by leap_dump), in order, none twice                          *)
+TrLeapAdapt == IsOp("leap_adapt") /\ KeepD /\ UNCHANGED <<e, eout>> /\ Has(E.res, "v") /\
+      LET all == E.all  n == E.n  L == Len(E.all) IN
+        E.res.v = (IF E.how \in {"skip", "nth_then"} THEN SubSeq(all, n + 1, L)
+                   ELSE [i \in 1..(IF L = 0 THEN 0 ELSE (L - 1) \div n + 1) |-> all[(i - 1) * n + 1]])
 (* the NAIF kernel shipped with the sources lists the same record *)
 TrLeapNaif == IsOp("leap_naif") /\ KeepD /\ UNCHANGED <<e, eout>> /\ Has(E.res, "v") /\
       LET v == E.res.v IN
@@ -386,7 +392,7 @@ Dev_F11 ==
   /\ Known("F11")
 
 EpochNext1 ==
-  \/ TrRefConst \/ TrOffsetConsts \/ TrLeapDump \/ TrLeapNaif \/ TrLeapQuery \/ TrLeapFile \/ TrLeapWith \/ TrLeapAll
+  \/ TrRefConst \/ TrOffsetConsts \/ TrLeapDump \/ TrLeapAdapt \/ TrLeapNaif \/ TrLeapQuery \/ TrLeapFile \/ TrLeapWith \/ TrLeapAll
   \/ TrELoad \/ TrEAdd \/ TrESub \/ TrEAddU \/ TrESubU \/ TrEAddF \/ TrESubE
   \/ TrToScale \/ TrToDur \/ TrECmp \/ TrERange \/ TrESort \/ TrEFloor \/ TrECeil \/ TrERound
   \/ TrFromGreg \/ TrFromGregFar \/ TrFromGregPanicky \/ TrIsValid \/ TrToGreg \/ TrWeekday \/ TrNext \/ TrPrev
